@@ -50,7 +50,15 @@ class G:
             out = f"{out} + {t}" if not t.startswith("-") else f"{out} - {t[1:]}"
         return out
 
-    def arg(self, names):
+    def arg(self, names, callees=(), depth=0):
+        inner = [g for g in callees if g["has_ret"]]
+        if inner and depth < 2 and self.chance(22):
+            # a call as an argument (any position): the outer call's other arguments must survive it
+            g = self.choice(inner)
+            g["calls"] += 1
+            self.features.add("call-as-argument")
+            self._arg_depth = max(getattr(self, "_arg_depth", 0), g["depth"] + 1)
+            return f"{g['name']}({', '.join(self.arg(names, callees, depth + 1) for _ in range(g['npar']))})"
         k = self.n(0, 5)
         if k == 0:
             return self.const()
@@ -63,9 +71,9 @@ class G:
         # `+ 0`: never a bare name (an un-overwritten parameter of an inlined callee would alias it, D5)
         return f"({self.mix(names[: self.n(0, len(names))])} + 0)"
 
-    def call(self, f, names):
+    def call(self, f, names, callees=()):
         f["calls"] += 1
-        return f"{f['name']}({', '.join(self.arg(names) for _ in range(f['npar']))})"
+        return f"{f['name']}({', '.join(self.arg(names, callees) for _ in range(f['npar']))})"
 
     def function(self, i, globs):
         name = f"f{i}"
@@ -92,7 +100,8 @@ class G:
             if k <= 2 and callees:
                 f = self.choice(callees)
                 depth = max(depth, f["depth"] + 1)
-                c = self.call(f, names)
+                c = self.call(f, names, callees)
+                depth = max(depth, getattr(self, "_arg_depth", 0))
                 if f["has_ret"]:
                     kk = self.n(0, 2)
                     if kk == 0:
@@ -144,12 +153,25 @@ class G:
             else:
                 L.append(f"    {self.choice(OUTS)} = {self.mix(names[-3:])}")
         tail = None
-        if has_ret:
+        if has_ret and self.chance(25):
+            # returns close the branches of a trailing if/else (no statement after it)
+            self.features.add("ends-in-if-else-returns")
+            L.append(f"    if {self.choice(names)} {self.choice(CMP)} {self.choice(READS + CONST)}:")
+            if callees and self.chance(50):
+                f = self.choice(callees)
+                depth = max(depth, f["depth"] + 1)
+                c = self.call(f, names, callees)
+                L.append(f"        {t} = {t} + {c}" if f["has_ret"] else f"        {c}")
+            L.append(f"        return {self.mix(names[-2:])}")
+            L.append("    else:")
+            L.append(f"        {self.choice(OUTS)} = {self.choice(names)}")
+            L.append(f"        return {self.mix(names[-3:])}")
+        elif has_ret:
             if callees and self.chance(25):
                 f = self.choice([g for g in callees if g["has_ret"]] or callees)
                 if f["has_ret"]:
                     depth = max(depth, f["depth"] + 1)
-                    L.append(f"    return {self.call(f, names)}")
+                    L.append(f"    return {self.call(f, names, callees)}")
                     self.features.add("return-of-call")
                 else:
                     L.append(f"    return {self.mix(names[-3:])}")
@@ -158,8 +180,10 @@ class G:
         elif callees and self.chance(35):
             f = self.choice([g for g in callees if not g["has_ret"]] or callees)
             depth = max(depth, f["depth"] + 1)
-            L.append(f"    {self.call(f, names)}")
+            L.append(f"    {self.call(f, names, callees)}")
             self.features.add("ends-in-call")
+        depth = max(depth, getattr(self, "_arg_depth", 0))
+        self._arg_depth = 0
         self.funcs.append({"name": name, "npar": npar, "has_ret": has_ret, "calls": 0, "depth": depth})
         return L
 
@@ -178,7 +202,7 @@ class G:
         ncalls = self.n(1, 4)
         for k in range(ncalls):
             f = top if k == 0 else self.choice(self.funcs)
-            c = self.call(f, globs)
+            c = self.call(f, globs, self.funcs)
             if f["has_ret"]:
                 body.append(f"{self.choice(OUTS)} = {c}")
             else:
